@@ -53,17 +53,24 @@ package protocol
 
 // ---- interfaces used by the observer and the document handler ----
 //@ ghost nsLookups int
+//@ spec nsOK(cp ClientProvider, ns string) bool
+//@ spec clientOf(cp ClientProvider, ns string) Client
 //@ iface ClientProvider.ForNamespace
 //@   results c, err
 //@   modifies nsLookups
 //@   ensures nsLookups == old(nsLookups) + 1
-//@   ensures err == nil ==> c != nil
+//@   ensures (err == nil) == nsOK(this, namespace)
+//@   ensures err == nil ==> c != nil && c == clientOf(this, namespace)
 //@ ghost txnProcessed int
+// ghost: the anchor strings of the transactions handed to a transaction processor so far, and the processor used last
+//@ ghost procSet map[string]bool
+//@ spec txnProcOf(v Version) TxnProcessor
 //@ iface Version.TransactionProcessor
-//@   ensures result != nil
+//@   ensures result != nil && result == txnProcOf(this)
 //@ iface TxnProcessor.Process
-//@   modifies txnProcessed
+//@   modifies txnProcessed, procSet
 //@   ensures txnProcessed == old(txnProcessed) + 1
+//@   ensures forall a string :: (a in procSet) == (old(a in procSet) || a == sidetreeTxn.AnchorString)
 //@ spec genesisOf(v Version) uint64
 //@ iface Version.Protocol
 //@   ensures result.MaxOperationCount == maxOps(this) && result.GenesisTime == genesisOf(this)
